@@ -206,6 +206,17 @@ func runEncode(p ref.Pt, z *big.Int) string {
 		if q.Equal(v) != 1 {
 			return "encode-then-decode: Equal = 0"
 		}
+		// the caller owns what an encoder returned: scribbling over it changes no later encoding, of this object or
+		// of another object holding the same point
+		for i := range enc {
+			enc[i] ^= 0xa5
+		}
+	}
+	w := lib.MkPTRep(p, big.NewInt(7))
+	for _, o := range []*secp256k1.Point{v, w} {
+		if c, u := o.CompressedBytes(), o.UncompressedBytes(); !bytes.Equal(c, p.Compressed()) || !bytes.Equal(u, p.Uncompressed()) {
+			return fmt.Sprintf("after the caller wrote into earlier returned encodings, the point encodes as %x / %x, expected %x / %x", c, u, p.Compressed(), p.Uncompressed())
+		}
 	}
 	return ""
 }
